@@ -200,6 +200,7 @@ type kind struct {
 	mk        func() *box
 	heap      bool // bulk Push exists
 	ordered   bool // heap-ordered container (binaryheap, priorityqueue): also runs the wide-magnitude profile
+	iface     bool // interface element type (elemtypes.go): short exhaustive words, a share of the other streams
 	noExh     bool // no bounded-exhaustive stream for this comparator shape (the other shapes cover it)
 	cap       int
 }
@@ -430,7 +431,7 @@ func main() {
 	rng := vhlib.NewRng(o.Seed)
 	w := vhlib.NewWriter(o.Out, "From VF Require Import C07.Model C08.Model C08.Check.\nLocal Open Scope Z_scope.", "case", "mismatches", 150)
 	thorough := o.Thorough()
-	kinds := allKinds()
+	kinds := append(allKinds(), ifaceKinds()...)
 
 	// ---- 1. bounded exhaustive: every word of length L over the alphabet ----
 	alpha := []op{{K: "Enq", V: 0}, {K: "Enq", V: 1}, {K: "Enq", V: 2}, {K: "Deq"}}
@@ -447,11 +448,20 @@ func main() {
 			continue
 		}
 		l := L
-		if k.cap > 0 && k.cap <= 3 && !thorough {
+		if k.cap > 0 && k.cap <= 3 && !thorough && !k.iface {
 			l = 5 // wrap-around of the small rings (the larger ones wrap in the random long words)
 		}
 		if k.cap > 0 && !k.safe && thorough {
 			l = 6
+		}
+		if k.iface { // interface element types: shorter words (the int kinds carry the long ones)
+			l = 3
+			if k.cap > 0 || thorough {
+				l = 4
+			}
+			if k.cap > 0 && thorough {
+				l = 5
+			}
 		}
 		al := alpha
 		if k.cap > 0 && !k.safe && thorough { // longer words over a smaller alphabet: two wrap-arounds of every ring
@@ -526,7 +536,7 @@ func main() {
 			m = 3
 		}
 		for pi, pre := range prefixes {
-			if k.safe && !thorough && pi%2 == 1 {
+			if (k.safe || k.iface) && !thorough && pi%2 == 1 {
 				continue
 			}
 			for variant := 0; variant < 2; variant++ {
@@ -583,6 +593,9 @@ func main() {
 			if k.safe && !thorough {
 				nw = walks / 3
 			}
+			if k.iface && !thorough {
+				nw = 2
+			}
 			for t := 0; t < nw; t++ {
 				r := rng.Fork()
 				c := newCase(k)
@@ -591,7 +604,7 @@ func main() {
 			}
 		}
 	}
-	w.Close(o, "one case = one container (array/linked queue, circular buffer of capacity 1..5, priority queue and binary heap with comparators of several shapes: -1/0/+1, its reverse, a-b, b-a, (a-b)*7, struct priority subtraction; array/linked stack; plain or Safe wrapper) driven through a word of Enqueue/Push, Dequeue/Pop, Clear, bulk Push (exhaustive short words, Clear in every fill state followed by reuse, profiled random long words); a caller scribbling over a Values() result is a step of some traces and every slice returned by Values() is read again at the end (aliasing judgement); after every mutator Peek, Values, Size, Empty (Full) and the ring cursors / heap array are recorded; distinct = distinct case terms; non-trivial = at least two mutators and a non-empty container reached")
+	w.Close(o, "one case = one container (array/linked queue, circular buffer of capacity 1..5, priority queue and binary heap with comparators of several shapes: -1/0/+1, its reverse, a-b, b-a, (a-b)*7, struct priority subtraction; array/linked stack; plain or Safe wrapper; element type int, and for a share of the streams the interface types any, error and a user interface, whose zero value is the nil interface) driven through a word of Enqueue/Push, Dequeue/Pop, Clear, bulk Push (exhaustive short words, Clear in every fill state followed by reuse, profiled random long words); a caller scribbling over a Values() result is a step of some traces and every slice returned by Values() is read again at the end (aliasing judgement); after every mutator Peek, Values, Size, Empty (Full) and the ring cursors / heap array are recorded; distinct = distinct case terms; non-trivial = at least two mutators and a non-empty container reached")
 }
 
 func walk(c *caseBuilder, r *vhlib.Rng, prof string) {
